@@ -257,7 +257,7 @@ pub fn glide_case(data: &[u8]) -> glide::GlideCase {
             6 | 7 => FastSwitch(r.unit() as f32),
             8 | 9 | 10 => Input(match r.u8() % 8 {
                 0 => 0.0,
-                1 => [10.0f32, -10.0, 1.0, -1.0, 1e-20, -1e-30, 1e-40, -0.0, 3e38, -3e38, f32::MAX, f32::MIN, 1e30, -1e30][(r.u8() % 14) as usize],
+                1 => [10.0f32, -10.0, 1.0, -1.0, 1e-20, -1e-30, 1e-40, -0.0, 3e38, -3e38, f32::MAX, f32::MIN, 1e30, -1e30, 1e-45, -3e-45][(r.u8() % 16) as usize],
                 _ => (r.unit() * 20.0 - 10.0) as f32,
             }),
             11 => InputCurrent,
